@@ -66,3 +66,9 @@ Fixpoint bytes_of_N_aux (n : nat) (x : N) (acc : bytes) : bytes :=
   match n with O => acc | S k => bytes_of_N_aux k (x / 256) (x mod 256 :: acc) end.
 Definition Bx (len x : N) : bytes := bytes_of_N_aux (N.to_nat len) x [].
 Arguments Bx _%N _%N.
+
+(* RFC 3501 ASTRING-CHAR = ATOM-CHAR / resp-specials: any CHAR except
+   "(" ")" "{" SP CTL "%" "*" DQUOTE "\" — written from the RFC's grammar *)
+Definition rfc_astring_char (c : N) : bool :=
+  in_range 33 126 c &&
+  negb ((c =? 40) || (c =? 41) || (c =? 123) || (c =? 37) || (c =? 42) || (c =? 34) || (c =? 92)).
